@@ -1,6 +1,7 @@
 #!/bin/sh
 # usage: seedrun.sh <patch.diff> <check-id> [tier]   -- applies a seeded change to /repo, runs one check, always restores /repo.
 patch="$1"; id="$2"; tier="${3:-quick}"
+export VERIF_EVIDENCE_DIR=/tmp/verif-scratch-evidence
 exec 9>/tmp/repo.lock; flock 9   # /repo's working tree is shared: one patched build at a time
 cd /repo || exit 9
 git diff --quiet || { echo "repo dirty, refusing"; exit 9; }
